@@ -135,7 +135,7 @@ Print Assumptions C24_bulk_delete.
 (* count/sum/min/max/avg of a single integer column = the Python operation on R whenever the DISTINCT the aggregate function
    uses is the DISTINCT the query is executed with (sum of nothing is 0; min/max/avg of nothing are None) *)
 Theorem C24_aggregate_except_known : forall f arg (q : query (A:=Z)), q_window q = no_window ->
-  aggr_distinct f arg = eff_distinct q ->
+  aggr_distinct f arg q = eff_distinct q ->
   q_aggregate f arg q = Ok (py_aggregate f (q_list Z.eqb q)).
 Proof. exact aggregate_list. Qed.
 Print Assumptions C24_aggregate_except_known.
@@ -252,3 +252,10 @@ Theorem C24_merged_filter_differs : forall w : window, window_ok w = true -> tra
   exists rows p, q_list Z.eqb (add_filter p (nest (plainq rows) w)) <> filter p (q_list Z.eqb (nest (plainq rows) w)).
 Proof. exact merged_filter_differs. Qed.
 Print Assumptions C24_merged_filter_differs.
+
+(* count() of a single-column query = len(list(q)) for every query, once COUNT uses the DISTINCT the query itself runs with
+   (count_default_follows_query, scanned from construct_sql_ast; with the original `COUNT(DISTINCT ..)` default see Findings/C24.v) *)
+Theorem C24_count_scalar : forall q : query (A:=Z), count_default_follows_query = true -> q_window q = no_window ->
+  q_aggregate ACount None q = Ok (py_aggregate ACount (q_list Z.eqb q)).
+Proof. exact count_scalar_list. Qed.
+Print Assumptions C24_count_scalar.
